@@ -115,6 +115,10 @@ def check_wellformed(text):
         bad.append(f'unexpanded template field {{{m.group(1)}}}')
     # variables: introduced in patterns (x:Label / (x) / [x:REL] / (x {..})), AS x, YIELD x, UNWIND .. AS x, with head(..) as x
     nostr = re.sub(r"'[^']*'|\"[^\"]*\"", "''", text)
+    # a map / list / argument list with a dangling separator:  {a: 1, }   [x, ]   (x, )   { , a: 1}   a: 1, , b: 2
+    m = re.search(r',\s*[\}\]\)]|[\{\[\(]\s*,|,\s*,', nostr)
+    if m:
+        bad.append(f'dangling separator {m.group(0)!r}')
     bound = set(re.findall(r'[\(\[]\s*([A-Za-z_][A-Za-z0-9_]*)\s*(?=[:\)\]\{ ])', nostr))
     bound |= set(re.findall(r'(?i)\bas\s+([A-Za-z_][A-Za-z0-9_]*)', nostr))
     for y in re.findall(r'(?i)\byield\s+([A-Za-z0-9_,\s]+?)(?=\breturn\b|\bwith\b|\bwhere\b|$)', nostr):
@@ -433,7 +437,7 @@ def _native_comps(v):
 
 
 reg('MatchingNodesWithComponents', 'get_matching_nodes_with_components',
-    lambda g, pg: dict(label=ident(g, 'label'), props=PDict({ident(g, 'p1'): val(g, 'v1')}),
+    lambda g, pg: dict(label=ident(g, 'label'), props=PDict({ident(g, 'p1'): val(g, 'v1')} if g.choice(2, 'a property given?') == 0 else {}),
                        comps=g.pick([None, 'one'], 'components given?') and _comps(g)),
     lambda v: dict(label='Lbl', props={'P1': v['val']}, comps=_native_comps(v)), cls=Neo4jCBMGraph, prefix=TC)
 for _nm, _m in (('IntersiteLinks', 'get_intersite_links'), ('Sites', 'get_sites'), ('DisconnectedSites', 'get_disconnected_sites'),
